@@ -205,11 +205,15 @@ impl<'a, 't> AnalyzeContext<'a, 't> {
 
     fn make_use_of(&self, use_pos: Option<&SrcPos>, unit_id: &UnitId) -> FatalResult {
         // Check local cache before taking lock
-        if self.uses.borrow_mut().insert(unit_id.clone()) {
-            self.root.make_use_of(use_pos, &self.current_unit, unit_id)
-        } else {
-            Ok(())
+        if self.uses.borrow().contains(unit_id) {
+            return Ok(());
         }
+        // Only a successful registration is cached: after a circular dependency
+        // error the same unit must fail again instead of being waited for
+        self.root
+            .make_use_of(use_pos, &self.current_unit, unit_id)?;
+        self.uses.borrow_mut().insert(unit_id.clone());
+        Ok(())
     }
 
     fn make_use_of_library_all(&self, library_name: &Symbol) {
